@@ -28,6 +28,8 @@ KINDS = ["Int", "Str", "ReadOnly", "Constant", "Event", "Disallow", "Python", "A
 
 
 def mk(kind):
+    if kind.endswith("=7"):
+        return 7                      # a plain value in the class body
     return {"Int": lambda: Int(), "Str": lambda: Str(), "ReadOnly": lambda: ReadOnly, "Constant": lambda: Constant(5),
             "Event": lambda: Event(), "Disallow": lambda: Disallow, "Python": lambda: Python(), "Any": lambda: Any(),
             "ReadOnly5": lambda: ReadOnly(5)}[kind]()
@@ -39,7 +41,9 @@ SUFFIXES = ["", "1", "b", "bc", "q", "_z"]
 NAMES = sorted({p + s for p in PREFIXES for s in SUFFIXES if (p + s) and not (p + s).endswith("_") and (p + s).isidentifier()})
 BASES = {"H": HasTraits, "S": HasStrictTraits, "P": HasPrivateTraits}
 
-LEVEL_ST = st.tuples(st.dictionaries(st.sampled_from(NAMES), st.sampled_from(KINDS), max_size=3),
+# "=7": the level re-declares an INHERITED name by a plain value (`x = 7` in the class body): the inherited trait with a new
+# default (only generated where the trait inherited from the first base that has one is Int or Any; dropped otherwise)
+LEVEL_ST = st.tuples(st.dictionaries(st.sampled_from(NAMES), st.sampled_from(KINDS + ["=7", "=7"]), max_size=3),
                      st.dictionaries(st.sampled_from(PREFIXES), st.sampled_from(KINDS), max_size=3)).map(list)
 OP = st.one_of(
     st.tuples(st.just("get"), st.sampled_from(NAMES)), st.tuples(st.just("get"), st.sampled_from(NAMES)),
@@ -81,6 +85,13 @@ def strategy(tier):
         # "declare on first use": a trait_added listener of the object adds an INSTANCE trait for these names the moment
         # the class resolves them for the first time (through a wildcard or the class default); that instance trait must
         # govern the very access that triggered the resolution
+        # declarations made with add_class_trait AFTER the whole family exists (before any instance is touched):
+        # [level index, explicit name or wildcard prefix, is-wildcard, kind]; same meaning as a declaration in the class body
+        # construction: the most derived level re-declares, by a plain value, the i-th Int/Any name it inherits; with `clash`
+        # the mixin (a LATER base) declares the same name as a Str
+        "redecl": st.one_of(st.none(), st.integers(0, 5)), "clash": st.booleans(),
+        "late": st.lists(st.tuples(st.integers(0, 2), st.sampled_from(PREFIXES[1:] + NAMES[:12]), st.booleans(), st.sampled_from(KINDS)).map(list),
+                         max_size=2),
         "declare": st.one_of(st.just({}), st.just({}), st.dictionaries(st.sampled_from(NAMES), st.sampled_from(KINDS), min_size=1, max_size=6)),
     })
 
@@ -141,10 +152,17 @@ class Model:
         self.store = {}
 
     def default(self, kind):
+        if kind.endswith("=7"):
+            return 7
         return {"Int": 0, "Str": "", "Any": None, "AnyPriv": None, "Constant": 5, "ReadOnly": Undefined, "ReadOnly5": 5,
                 "ListInt": []}.get(kind)
 
     def get(self, kind, name):
+        if kind.endswith("=7"):
+            if name in self.store:
+                return ("ok", self.store[name])
+            self.store[name] = 7
+            return ("ok", 7)
         if kind in ("Event", "Disallow", "ItemsEvent"):
             return ("AttributeError",)
         if kind == "Constant":
@@ -157,6 +175,7 @@ class Model:
         return ("ok", self.default(kind))
 
     def set(self, kind, name, v):
+        kind = kind.split("=")[0]
         if kind in ("Disallow", "Constant"):
             return ("TraitError",)
         if kind == "ReadOnly5":
@@ -178,6 +197,7 @@ class Model:
         return ("ok", None)
 
     def delete(self, kind, name):
+        kind = kind.split("=")[0]
         if kind in ("Disallow", "Constant", "ReadOnly", "ReadOnly5"):
             return ("TraitError",)
         if kind in ("Event", "ItemsEvent"):
@@ -204,11 +224,49 @@ def run(case, ctx):
     base = case["base"]
     levels = [[dict(ex), dict(wc)] for ex, wc in case["levels"]]
     mixin = [dict(case["mixin"][0]), dict(case["mixin"][1])] if case["mixin"] else None
+    if mixin:
+        mixin[0] = {n: k for n, k in mixin[0].items() if k != "=7"}
+    if case.get("redecl") is not None and len(levels) > 1:
+        cands = sorted({n for ex2, _ in levels[:-1] for n, k2 in ex2.items() if k2 in ("Int", "Any")})
+        if cands:
+            rn = cands[case["redecl"] % len(cands)]
+            levels[-1][0][rn] = "=7"
+            if mixin and case.get("clash") and case["leaf_body"]:
+                mixin[0][rn] = "Str"
+                ctx.label("redeclared-name-clashes-in-a-later-base")
+    # plain-value redeclarations: resolved against what that class inherits (first base that has the name wins)
+    for i, (ex, wc) in enumerate(levels):
+        for name in [n for n, k in ex.items() if k == "=7"]:
+            inherited = None
+            for ex2, _ in reversed(levels[:i]):
+                if name in ex2:
+                    inherited = ex2[name]
+                    break
+            if inherited is None and mixin and i == len(levels) - 1 and case["leaf_body"] and name in mixin[0]:
+                inherited = mixin[0][name]
+            if inherited is not None and inherited.split("=")[0] in ("Int", "Any"):
+                ex[name] = inherited.split("=")[0] + "=7"
+                ctx.label("plain-value-redeclaration")
+            else:
+                del ex[name]
+    late = []
+    declared_names = set().union(*[set(ex) for ex, _ in levels + ([mixin] if mixin else [])])
+    declared_prefixes = set().union(*[set(wc) for _, wc in levels + ([mixin] if mixin else [])])
+    for li, key, is_wc, kind in case.get("late") or []:
+        li = li % len(levels)
+        if is_wc and key in PREFIXES and key not in declared_prefixes and not (base == "P" and key == "_"):
+            late.append((li, key, True, kind))
+            declared_prefixes.add(key)
+        elif not is_wc and key in NAMES and key not in declared_names:
+            late.append((li, key, False, kind))
+            declared_names.add(key)
     cls = BASES[base]
+    built = []
     for li, (ex, wc) in enumerate(levels[:-1] if mixin else levels):
         ns = {n: mk(k) for n, k in ex.items()}
         ns.update({p + "_": mk(k) for p, k in wc.items()})
         cls = type("G%d" % li, (cls,), ns)
+        built.append(cls)
     if mixin:
         mns = {n: mk(k) for n, k in mixin[0].items()}
         mns.update({p + "_": mk(k) for p, k in mixin[1].items()})
@@ -219,6 +277,7 @@ def run(case, ctx):
             parent_ns = {n: mk(k) for n, k in ex.items()}
             parent_ns.update({p + "_": mk(k) for p, k in wc.items()})
             parent = type("G%d" % (len(levels) - 1), (cls,), parent_ns)
+            built.append(parent)
             cls = type("Leaf", (parent, Mixin), {})
         else:
             if cls in BASES.values():
@@ -226,6 +285,7 @@ def run(case, ctx):
             ns = {n: mk(k) for n, k in ex.items()}
             ns.update({p + "_": mk(k) for p, k in wc.items()})
             cls = type("Leaf", (cls, Mixin), ns)
+            built.append(cls)
         ctx.label("mixin")
     res = Resolver(base, levels, mixin)
     declare = dict(case.get("declare") or {})
@@ -235,6 +295,11 @@ def run(case, ctx):
                 self.add_trait(name, mk(declare[name]))
         cls = type("Declaring", (cls,), {"_trait_added_changed": _trait_added_changed})
         ctx.label("declare-on-first-use")
+    # late declarations: the whole family exists already (subclasses included), no instance has been touched yet
+    for li, key, is_wc, kind in late:
+        built[li].add_class_trait(key + "_" if is_wc else key, mk(kind))
+        levels[li][1 if is_wc else 0][key] = kind
+        ctx.label("late-class-declaration" + ("-wildcard" if is_wc else ""))
     explicit = set()
     for ex, wc in levels + ([mixin] if mixin else []):
         explicit.update(ex)
